@@ -258,3 +258,117 @@ pub fn huge_family(giant_methods: usize) -> ListSpace {
     }
     ListSpace { name: "MS-H huge-count family".into(), note: "N in {147, 300, 2340, 2341, 4682, 9363} classes with one entry each (class table crossing 4 KiB and 64 KiB block sizes); optionally one class with 150000 (quick) / 400000 (thorough) distinct methods".into(), files, wide: false }
 }
+
+// ---------------------------------------------------------------------------------------------
+// MS-X: names that collide under common 32-bit fingerprints (an implementation that identifies a name by a
+// truncated hash confuses exactly these). Found by a birthday search over "o.k<hex>" at start-up.
+
+fn fnv1a64(b: &[u8]) -> u64 {
+    let mut h: u64 = 0xcbf29ce484222325;
+    for x in b {
+        h ^= *x as u64;
+        h = h.wrapping_mul(0x100000001b3);
+    }
+    h
+}
+fn fnv1a32(b: &[u8]) -> u32 {
+    let mut h: u32 = 0x811c9dc5;
+    for x in b {
+        h ^= *x as u32;
+        h = h.wrapping_mul(0x01000193);
+    }
+    h
+}
+fn djb2(b: &[u8]) -> u32 {
+    let mut h: u32 = 5381;
+    for x in b {
+        h = h.wrapping_mul(33).wrapping_add(*x as u32);
+    }
+    h
+}
+fn java_hash(b: &[u8]) -> u32 {
+    let mut h: u32 = 0;
+    for x in b {
+        h = h.wrapping_mul(31).wrapping_add(*x as u32);
+    }
+    h
+}
+fn crc32(b: &[u8]) -> u32 {
+    let mut c: u32 = !0;
+    for x in b {
+        c ^= *x as u32;
+        for _ in 0..8 {
+            c = if c & 1 != 0 { (c >> 1) ^ 0xEDB88320 } else { c >> 1 };
+        }
+    }
+    !c
+}
+#[allow(deprecated)]
+fn sip_str(s: &str) -> u64 {
+    use std::hash::{Hash, Hasher};
+    let mut h = std::collections::hash_map::DefaultHasher::new();
+    s.hash(&mut h);
+    h.finish()
+}
+fn sip_bytes(s: &str) -> u64 {
+    use std::hash::Hasher;
+    let mut h = std::collections::hash_map::DefaultHasher::new();
+    h.write(s.as_bytes());
+    h.finish()
+}
+
+/// (fingerprint name, first name, second name)
+pub fn collision_pairs() -> &'static Vec<(&'static str, String, String)> {
+    static P: std::sync::OnceLock<Vec<(&'static str, String, String)>> = std::sync::OnceLock::new();
+    P.get_or_init(|| {
+        let funcs: Vec<(&'static str, Box<dyn Fn(&str) -> u32>)> = vec![
+            ("DefaultHasher(str) low 32", Box::new(|s| sip_str(s) as u32)),
+            ("DefaultHasher(str) high 32", Box::new(|s| (sip_str(s) >> 32) as u32)),
+            ("DefaultHasher(bytes) low 32", Box::new(|s| sip_bytes(s) as u32)),
+            ("DefaultHasher(bytes) high 32", Box::new(|s| (sip_bytes(s) >> 32) as u32)),
+            ("FNV-1a 64 low 32", Box::new(|s| fnv1a64(s.as_bytes()) as u32)),
+            ("FNV-1a 64 folded", Box::new(|s| { let h = fnv1a64(s.as_bytes()); (h ^ (h >> 32)) as u32 })),
+            ("FNV-1a 32", Box::new(|s| fnv1a32(s.as_bytes()))),
+            ("djb2", Box::new(|s| djb2(s.as_bytes()))),
+            ("java hashCode", Box::new(|s| java_hash(s.as_bytes()))),
+            ("CRC-32", Box::new(|s| crc32(s.as_bytes()))),
+        ];
+        let mut out = Vec::new();
+        for (label, f) in funcs {
+            let mut seen: std::collections::HashMap<u32, u32> = std::collections::HashMap::new();
+            let mut found = 0;
+            for i in 0..1_000_000u32 {
+                let n = format!("o.k{:x}", i);
+                let h = f(&n);
+                if let Some(j) = seen.insert(h, i) {
+                    out.push((label, format!("o.k{:x}", j), n));
+                    found += 1;
+                    if found == 2 {
+                        break;
+                    }
+                }
+            }
+        }
+        out
+    })
+}
+
+/// MS-X as mappings: every colliding pair as two classes (each with its own entry), in both orders
+pub fn collision_family() -> ListSpace {
+    let mut files = Vec::new();
+    for (_, a, b) in collision_pairs() {
+        for (x, y) in [(a, b), (b, a)] {
+            files.push((
+                vec![
+                    class("x.First", leak(x)),
+                    method(Some((1, 2)), None, "one", "", Orig::SE(3, 4), "m"),
+                    class("x.Second", leak(y)),
+                    method(None, None, "two", "int", Orig::None, "m"),
+                    method(None, None, "three", "int", Orig::None, "n"),
+                ],
+                Term::Lf,
+            ));
+        }
+    }
+    ListSpace { name: "MS-X fingerprint-collision family".into(), note: "pairs of class names that collide under ten common 32-bit fingerprints (DefaultHasher low/high half over str and bytes, FNV-1a 64 truncated / folded, FNV-1a 32, djb2, Java hashCode, CRC-32), found by a birthday search over o.k<hex>; each pair as two classes, both orders".into(), files, wide: false }
+}
